@@ -99,6 +99,18 @@ def h13(n, k, with_merge):
                 removed = True
         if removed:
             e.reach("H13:atoms-removed-after-creation")
+        def val(env):
+            Dv = concrete(D, env)
+            th = [fval(bt, env), fval(mr, env), 1.1 * fval(bt, env)]
+            if any(abs(Dv[i, j] - t) < 1e-9 for i in range(n) for j in range(n) for t in th + [0.0]):
+                return None
+            if any(abs(fval(mt, env) - a / b) < 1e-9 for a in range(0, n + 1) for b in range(1, n + 1)):
+                return None
+            cl, *_ = SC.concrete_postprocess(numbers, Dv, index_sets, fval(mt, env), fval(mr, env), fval(bt, env), radii=[fval(r, env) for r in radii], do_merge=with_merge)
+            a = sorted(sorted(int(x) for x in c.indices) for c in cl)
+            b = sorted(sorted(int(x) for x in c.indices) for c in out)
+            return True if a == b else f"real post-processing gives {a}, symbolic run {b}"
+        e.validate_with(val)
         e.reach("H13:clusters")
         e.sample({"numbers": numbers.tolist(), "input_clusters": index_sets, "output_clusters": [sorted(int(x) for x in c.indices) for c in out], "merge_step": with_merge})
     return fn
@@ -182,7 +194,7 @@ def main(tier, seed, only=None):
         name = f"H13:n{n}:k{k}" + (":merge" if wm else "")
         if only and not any(name.startswith(o) for o in only):
             continue
-        rep.merge_stats(explore(h13(n, k, wm), name, timeout_ms=20000, budget_s=1500 if tier == "quick" else 5000, chunk_paths=200, chunk_s=15), "H13")
+        rep.merge_stats(explore(h13(n, k, wm), name, timeout_ms=20000, budget_s=1500 if tier == "quick" else 5000, chunk_paths=200, chunk_s=15, validate_every=10), "H13")
     if not only:
         rep.require_reached("H13:clusters", "H13:atoms-removed-after-creation")
     rep.bounds = {"clusters": str(cfg), "matrix": "symbolic symmetric radii-corrected distance matrix", "radii": "symbolic custom per-atom array", "thresholds": "symbolic"}
